@@ -51,8 +51,9 @@ PER = {}
 
 # inputs kept from earlier failures, run first
 CORPUS = [
-    # L_0 = 2^-12: 16 un-polled initial step-size backtracks; stop() from inside event 2
-    # (known finding C19-init-stepsize-loop-not-interruptible)
+    # L_0 = 2^-12: 16 initial step-size backtracks; stop() from inside event 2 (finding
+    # C19-init-stepsize-loop-not-interruptible, fixed by fixes/C19-init-loop-stop-poll.diff: the
+    # initial loop polls the flag — this run now ends after 8 calls, status Interrupted)
     'run solver=panoc dir=lbfgs n=4 m=0 Q=16:401a000000000000,3fe0000000000000,4014000000000000,4004000000000000,'
     '3fe0000000000000,4008000000000000,0000000000000000,3ff0000000000000,4014000000000000,0000000000000000,'
     '401d000000000000,4006000000000000,4004000000000000,3ff0000000000000,4006000000000000,4006000000000000 '
